@@ -12,7 +12,8 @@ truthiness, 0 being the first identifier handed out (dead-success); that every k
 record is fed by the same-named attribute of the request (record-faithful); identifier allocation (ids: id = counter,
 then counter += 1, never derived from the store's size; no other method and nothing outside the store class writes
 the counter); expiry: an object is deleted exactly under `now > timestamp + validity * 1000`, and it is the object the
-scan examines; both maintenance scans range over get_all_data_containers() with no break / return, so no object is
+scan examines; the back-ends' remove(record) deletes only under `<whole stored record> == record` and one record per call;
+both maintenance scans range over get_all_data_containers() with no break / return, so no object is
 skipped (scan-is-complete); collect_trash runs the time-validity check on every normal exit; the reactive maintenance
 collects trash from add_provider_data under the rate limit at most; that the area-of-maintenance check never deletes
 under a true `compare_with_int` (object inside the area) (area).
@@ -675,6 +676,67 @@ def run(ctx):
                f"{ch.module.rel}:{c.lineno}")
     if not dels:
         raise AnalysisError("C12: expiry no longer deletes")
+    # the back-ends' remove(record) deletes a stored record EQUAL to the one given (the whole record, not some of its members):
+    # both garbage collectors hand over the record under examination, and two objects may agree in application id and timestamp
+    n_rm = 0
+    for bq in (DB, TDB):
+        rm = P.func(f"{bq}.remove")
+        if len(rm.params) != 2:
+            raise AnalysisError(f"C12: {rm.short()} no longer takes (self, record)")
+        par = rm.params[1]
+        rfl = ctx.flows.get(rm)
+        sites = [n_ for n_ in ast.walk(rm.node) if isinstance(n_, ast.Delete) or
+                 (isinstance(n_, ast.Call) and isinstance(n_.func, ast.Attribute) and n_.func.attr in ("remove", "pop") and
+                  dotted(n_.func.value) == "self.database")]
+        for site in sites:
+            n_rm += 1
+            loops = [f_ for f_ in ast.walk(rm.node) if isinstance(f_, ast.For) and any(site is x for x in ast.walk(f_))]
+            tnames = {x.id for f_ in loops for x in ast.walk(f_.target) if isinstance(x, ast.Name)}
+            try:
+                atoms_ = sem.facts(rfl, site, expanded=False)
+            except AnalysisError:
+                atoms_ = set()
+            whole = {f"eq({a},{b})" for t in tnames for a, b in ((par, t), (t, par), (par, f"dict({t})"), (f"dict({t})", par))}
+            ok = bool(atoms_ & whole)
+            one = False
+            if not ok and isinstance(site, ast.Call):
+                # the identifiers may have been selected beforehand: `[d.doc_id for d in ... if dict(d) == record]`
+                st_ = rfl.state_at(site)
+                for a_ in list(site.args) + [k.value for k in site.keywords]:
+                    xa = rfl.expand(a_, st_)
+                    for comp in [x for x in ast.walk(xa) if isinstance(x, (ast.ListComp, ast.GeneratorExp, ast.SetComp))]:
+                        for g_ in comp.generators:
+                            tn = {x.id for x in ast.walk(g_.target) if isinstance(x, ast.Name)}
+                            w2 = {f"eq({a},{b})" for t in tn for a, b in ((par, t), (t, par), (par, f"dict({t})"), (f"dict({t})", par))}
+                            if any(set(sem.atoms(i_, True)) & w2 for i_ in g_.ifs):
+                                ok = True
+                    # ... and only the first of them may go: `ids[:1]` / `[ids[0]]`
+                    if isinstance(xa, ast.Subscript) and isinstance(xa.slice, ast.Slice) and xa.slice.lower is None and \
+                            isinstance(xa.slice.upper, ast.Constant) and xa.slice.upper.value == 1:
+                        one = True
+                    if isinstance(xa, ast.List) and len(xa.elts) == 1 and isinstance(xa.elts[0], ast.Subscript) and \
+                            isinstance(xa.elts[0].slice, ast.Constant) and xa.elts[0].slice.value == 0:
+                        one = True
+            # one record per call: inside the scan the deletion is followed by the return (first match only)
+            for f_ in loops:
+                for blk in [x for x in ast.walk(f_) if hasattr(x, "body") and isinstance(getattr(x, "body"), list)]:
+                    for fld in ("body", "orelse"):
+                        lst = getattr(blk, fld, None) or []
+                        for i_, st2 in enumerate(lst):
+                            if any(site is x for x in ast.walk(st2)) and isinstance(st2, (ast.Delete, ast.Expr)) and \
+                                    any(isinstance(y, ast.Return) for y in lst[i_ + 1:i_ + 2]):
+                                one = True
+            ctx.ob("C12.expiry", rm.short(), "removes-one-record", one,
+                   "one stored record goes per call (the scan returns after the first match)" if one else
+                   f"the deletion at line {site.lineno} can take every equal copy at once: a record stored twice and removed once is gone "
+                   "from this back-end and still present in the other", f"{rm.module.rel}:{site.lineno}")
+            ctx.ob("C12.expiry", rm.short(), "removes-the-equal-record", ok,
+                   "a record is deleted only when the whole stored record equals the one given" if ok else
+                   f"the deletion at line {site.lineno} is not guarded by `<stored record> == {par}` (guards: {sorted(atoms_)[:3]}): records that "
+                   "agree only in some members (same provider, same millisecond) are confused and the wrong object is deleted",
+                   f"{rm.module.rel}:{site.lineno}")
+    if n_rm < 2:
+        raise AnalysisError(f"C12: only {n_rm} deletions found in the back-ends' remove() (confirmed: 2)")
     # every stored object is examined: the scan over the containers has no early exit
     for fn_name in ("check_and_delete_time_validity", "check_and_delete_area_of_maintenance"):
         f2 = P.func(f"{MT}.{fn_name}")
